@@ -49,6 +49,15 @@ func (c25) Describe() engine.Info {
 	}
 }
 
+// FlakyClass: what the race detector reports, and digests of truly concurrent runs, depend on how the
+// goroutines of the child process happened to overlap.
+func (c25) FlakyClass(class string) (int, bool) {
+	if strings.HasPrefix(class, "C25/data-race") || strings.HasPrefix(class, "C25/concurrent-differs-from-solo") {
+		return 6, true
+	}
+	return 0, false
+}
+
 func (c25) Generate(r *engine.Rand, index int, tier string) *engine.Scenario {
 	if index%10 == 9 {
 		// truly concurrent construction and execution (no simulated devices attached, so the instances
